@@ -382,6 +382,14 @@ func (p c11) kinds(c *core.Ctx, k int) {
 			}
 			return false
 		}},
+		{"uses-augment", "grouping gr { container t { leaf z { type string; } } } uses gr { augment t { " + iff + " leaf g { type string; } } }", func(m *meta.Module) bool {
+			for _, d := range m.DataDefinitions() {
+				if ct, ok := d.(*meta.Container); ok && ct.Ident() == "t" {
+					return has(ct.DataDefinitions(), "g")
+				}
+			}
+			return false
+		}},
 		{"refine", "grouping gr { leaf r1 { type string; } leaf r2 { type string; } leaf r3 { type string; } } uses gr { refine r1 { description \"first\"; } refine r2 { " + iff + " description \"g\"; } refine r3 { description \"third\"; } }", func(m *meta.Module) bool {
 			for _, d := range m.DataDefinitions() {
 				if d.Ident() == "r2" {
@@ -541,6 +549,8 @@ func (p c11) deviations(c *core.Ctx, k int) {
 		{"delete/must", `deviation "/le" { deviate delete { must "a > 1"; } }`, []string{".children.2.musts"}, false},
 		{"delete/unique", `deviation "/li" { deviate delete { unique "u1"; } }`, []string{".children.1.unique"}, false},
 		{"delete/must-missing", `deviation "/le" { deviate delete { must "zz"; } }`, nil, true},
+		{"delete/both-musts", `deviation "/le" { deviate delete { must "a > 1"; must "b > 2"; } }`, []string{".children.2.musts"}, false},
+		{"delete/must+units", `deviation "/le" { deviate delete { must "b > 2"; units "m"; } }`, []string{".children.2.musts", ".children.2.units"}, false},
 		{"target-missing", `deviation "/nope" { deviate not-supported; }`, nil, true},
 		{"multi/add+replace+delete", `deviation "/le" { deviate add { must "c > 3"; } deviate replace { units "cm"; } deviate delete { default "5"; } }`, []string{".children.2.musts", ".children.2.units", ".children.2.default", ".children.2.has-default"}, false},
 		{"multi/replace+delete", `deviation "/li" { deviate replace { max-elements 3; } deviate delete { unique "u1"; } }`, []string{".children.1.max", ".children.1.unique"}, false},
@@ -652,6 +662,12 @@ func (p c11) deviations(c *core.Ctx, k int) {
 		p.want(c, d.name, with, ".children.1.max", "3")
 		if _, still := with[".children.1.unique.0.0"]; still {
 			c.Violate("deviation/"+d.name+"/wrong-value", "unique u1 was not deleted")
+		}
+	case "delete/both-musts":
+		for k := range with {
+			if strings.HasPrefix(k, ".children.2.musts.") && strings.HasSuffix(k, ".expr") {
+				c.Violate("deviation/delete/both-musts/left", "deviate delete naming both must statements left %q", with[k])
+			}
 		}
 	case "delete/must":
 		n := 0
